@@ -72,11 +72,21 @@ class Cfg:
     horizon: Optional[str] = None  # expression for the structural horizon (C11), evaluated with env
     tags: Tuple[str, ...] = ()
     quick: bool = True  # part of the quick tier
+    instance_fields: Tuple[str, ...] = ()  # injected instance family: state fields identifying an instance
+    n_instances: int = 0  # ... and how many distinct instances the generator's range has (all must be reached)
 
     def make(self) -> Any:
         return eval(self.ctor, namespace())  # noqa: S307 - our own catalogue strings
 
-    def keys(self, tier: str) -> List[int]:
+    def keys(self, tier: str, env: Any = None) -> List[int]:
+        if self.n_instances:
+            from mc import inject
+
+            ks, n = inject.distinct_instance_keys(env if env is not None else self.make(), self.instance_fields,
+                                                  self.n_instances)
+            if n != self.n_instances:
+                raise RuntimeError(f"{self.name}: only {n} of {self.n_instances} injected instances reached")
+            return ks
         return list(range(self.keys_quick if tier == "quick" else self.keys_thorough))
 
     def max_states(self, tier: str) -> int:
@@ -98,6 +108,8 @@ CATALOG: List[Cfg] = [
     # ---------------- GraphColoring
     _c("graphcol-4", "graph_coloring", "GraphColoring(G.graph_coloring.RandomGenerator(4, 0.5))",
        keys_quick=4, keys_thorough=16, horizon="4"),
+    _c("graphcol-all4", "graph_coloring", "GraphColoring(INJ.all_graphs(4))", horizon="4",
+       instance_fields=("adj_matrix",), n_instances=64, kind="injected", max_states_quick=40_000),
     _c("graphcol-5", "graph_coloring", "GraphColoring(G.graph_coloring.RandomGenerator(5, 0.6))",
        keys_quick=3, keys_thorough=8, horizon="5"),
     _c("graphcol-5-dense", "graph_coloring", "GraphColoring(G.graph_coloring.RandomGenerator(5, 0.95))",
@@ -107,6 +119,8 @@ CATALOG: List[Cfg] = [
     # ---------------- Minesweeper
     _c("mines-3x3-2", "minesweeper", "Minesweeper(G.minesweeper.UniformSamplingGenerator(3, 3, 2))",
        keys_quick=2, keys_thorough=8, horizon="7"),
+    _c("mines-all-3x3-2", "minesweeper", "Minesweeper(INJ.all_mines(3, 3, 2))", horizon="7",
+       instance_fields=("flat_mine_locations",), n_instances=36, kind="injected", max_states_quick=60_000),
     _c("mines-2x5-1", "minesweeper", "Minesweeper(G.minesweeper.UniformSamplingGenerator(2, 5, 1))",
        kind="awkward", keys_quick=1, keys_thorough=4, horizon="9", max_states_quick=6000),
     _c("mines-4x3-11", "minesweeper", "Minesweeper(G.minesweeper.UniformSamplingGenerator(4, 3, 11))",
@@ -169,6 +183,8 @@ CATALOG: List[Cfg] = [
     # ---------------- Knapsack
     _c("knapsack-6", "knapsack", "Knapsack(G.knapsack.RandomGenerator(6, 1.5))",
        keys_quick=3, keys_thorough=8, horizon="6"),
+    _c("knapsack-grid3", "knapsack", "Knapsack(INJ.knapsack_grid(3, 1.0))", horizon="3",
+       instance_fields=("weights",), n_instances=27, kind="injected"),
     _c("knapsack-5-sparse", "knapsack", "Knapsack(G.knapsack.RandomGenerator(5, 1.0), "
        "reward_fn=R.knapsack.SparseReward())", keys_quick=2, keys_thorough=6, horizon="5"),
     _c("knapsack-4-tight", "knapsack", "Knapsack(G.knapsack.RandomGenerator(4, 0.1))", kind="awkward",
